@@ -353,6 +353,52 @@ def check_bins(prog, rep):
     rep.floor(R, 1)
 
 
+
+def _check_bounds_vectorised(prog, rep, f, L, body):
+    """loop-free haplobin_bounds: break positions = flatnonzero(<labels change>) + 1.  Decides the change test only: a block starts wherever two neighbouring
+    labels DIFFER (an empty equal-width bin makes the labels skip a value); a test for an increment of exactly one fuses the two bins around an empty one.
+    Returns True when a verdict (violation) was given; the assembly of starts / stops from the breaks in this form is left undecided."""
+    R = "R3-bounds"
+    defs = {}
+    for st in body:
+        if isinstance(st, ast.Assign) and len(st.targets) == 1 and isinstance(st.targets[0], ast.Name):
+            defs.setdefault(st.targets[0].id, []).append(st.value)
+
+    def res(e):
+        return defs[e.id][0] if isinstance(e, ast.Name) and len(defs.get(e.id, [])) == 1 and e.id != L else e
+
+    def is_labels(e):
+        e = res(e)
+        if isinstance(e, ast.Call) and prog.dotted(f.module, e.func) in ("numpy.asarray", "numpy.array", "numpy.asanyarray") and e.args:
+            e = e.args[0]
+        return isinstance(e, ast.Name) and e.id == L
+    for nm, vs in defs.items():
+        for v in vs:
+            # <nonzero positions>(cond) + 1
+            if not (isinstance(v, ast.BinOp) and isinstance(v.op, ast.Add) and isinstance(v.right, ast.Constant) and v.right.value == 1):
+                continue
+            c = v.left
+            if isinstance(c, ast.Subscript) and isinstance(c.slice, ast.Constant) and c.slice.value == 0:
+                c = c.value
+            if not (isinstance(c, ast.Call) and prog.dotted(f.module, c.func) in ("numpy.flatnonzero", "numpy.nonzero", "numpy.where", "numpy.argwhere") and len(c.args) == 1):
+                continue
+            cond = res(c.args[0])
+            if not (isinstance(cond, ast.Compare) and len(cond.ops) == 1):
+                continue
+            l_, r_ = res(cond.left), res(cond.comparators[0])
+            op = cond.ops[0]
+            is_diff = isinstance(l_, ast.Call) and prog.dotted(f.module, l_.func) in ("numpy.diff", "numpy.ediff1d") and l_.args and is_labels(l_.args[0])
+            if is_diff and isinstance(r_, ast.Constant) and isinstance(r_.value, (int, float)):
+                if isinstance(op, ast.Eq) and r_.value != 0:
+                    rep.violate(R, f.qualname, "a block boundary is placed only where the label increases by exactly %r (%s): when an equal-width bin holds no marker the labels skip a "
+                                "value, and the two bins around the empty one are fused into one block" % (r_.value, dump(cond)), where(f, cond), "numpy.diff(%s) != 0" % L, dump(cond))
+                    return True
+                if isinstance(op, ast.Eq) and r_.value == 0:
+                    rep.violate(R, f.qualname, "block boundaries are placed where neighbouring labels are EQUAL (%s)" % dump(cond), where(f, cond), "numpy.diff(%s) != 0" % L, dump(cond))
+                    return True
+            return False
+    return False
+
 # ------------------------------------------------------------------------------------------------ R3
 def check_bounds(prog, rep):
     R = "R3-bounds"
@@ -363,6 +409,8 @@ def check_bounds(prog, rep):
     body = body_nodoc(f.node)
     loops = [s for s in body if isinstance(s, ast.For)]
     rets = [s for s in body if isinstance(s, ast.Return)]
+    if len(ps) == 1 and not loops and _check_bounds_vectorised(prog, rep, f, ps[0], body):
+        return
     if len(ps) != 1 or len(loops) != 1 or len(rets) != 1 or not isinstance(rets[0].value, ast.Tuple) or len(rets[0].value.elts) != 3:
         rep.unrec(R, construct, "not (labels) -> (starts, stops, lengths) with one scan loop")
         return
